@@ -820,7 +820,7 @@ class InProcConnection(BaseNetQASMConnection):
                                       remote_epr_socket_id=msg.remote_epr_socket_id)
             list(out)
         elif isinstance(msg, SubroutineMessage):
-            sub = deserialize_subroutine(msg.subroutine, flavour=VanillaFlavour())
+            sub = deserialize_subroutine(msg.subroutine, flavour=getattr(self, "_flavour", None) or VanillaFlavour())
             idle = 0
             for y in ex.execute_subroutine(sub):
                 if y == "wait":
@@ -1148,4 +1148,163 @@ def run_program_case(pc):
                 info = qubits[i].entanglement_info
                 for f, v in zip(info._fields, info):
                     out["checks"].append(("call %s qubit %d entanglement_info.%s" % (c, i, f), v.value, fld(f)))
+    return out
+
+
+# ---------------------------------------------------------------------- C11: handles over hardware configs
+# generic / NV hardware (with and without the NV transpiler) x sequential / all-at-once x 1..3 pairs x
+# both roles; which returned Qubit holds which pair is ESTABLISHED from the run: every response carries a
+# distinct physical qubit id, the executor subclass follows that qubit through `mov` (NV: communication
+# qubit -> memory qubit) and records the order of measurements (sequential requests).
+
+from netqasm.lang.instr.flavour import NVFlavour  # noqa: E402
+from netqasm.sdk.build_types import GenericHardwareConfig, NVHardwareConfig  # noqa: E402
+from netqasm.sdk.transpile import NVSubroutineTranspiler  # noqa: E402
+
+PHYS0 = 60     # physical id of pair k is PHYS0 + k
+
+
+class TokenExecutor(SteppingExecutor):
+    """follows the content of physical qubits: `content[p]` = the physical id the state in p came from"""
+
+    def __init__(self, *a, **k):
+        super().__init__(*a, **k)
+        self.content = {}
+        self.measured = []
+
+    def _phys(self, subroutine_id, v):
+        return self._get_unit_module(subroutine_id)[v]
+
+    def _do_two_qubit_instr(self, instr, subroutine_id, address1, address2):
+        if instr.mnemonic == "mov":
+            src, dst = self._phys(subroutine_id, address1), self._phys(subroutine_id, address2)
+            self.content[dst] = self.content.pop(src, src)
+        return None
+
+    def _do_meas(self, subroutine_id, q_address):
+        p = self._phys(subroutine_id, q_address)
+        self.measured.append(self.content.get(p, p))
+        return 0
+
+
+def gen_hw_case(rng):
+    hw = rng.choice(["generic", "nv", "nv", "nv+transpiler"])
+    number = rng.randint(1, 3)
+    return {"hw": hw, "role": rng.choice(["create", "recv"]), "tp": rng.choice(["K", "K", "K", "M"]),
+            "number": number, "sequential": rng.random() < 0.35, "phi": rng.random() < 0.5,
+            "nq": rng.randint(max(2, number), 5), "rseed": rng.randrange(1 << 30)}
+
+
+def all_hw_cases():
+    out = []
+    for hw in ("generic", "nv", "nv+transpiler"):
+        for role in ("create", "recv"):
+            for number in (1, 2, 3):
+                for seq in (False, True):
+                    out.append({"hw": hw, "role": role, "tp": "K", "number": number, "sequential": seq,
+                                "phi": False, "nq": 4, "rseed": 7 * number + (1 if seq else 0)})
+                out.append({"hw": hw, "role": role, "tp": "M", "number": number, "sequential": False,
+                            "phi": True, "nq": 4, "rseed": 11 * number})
+    return out
+
+
+def run_hw_case(c, pair_of_handle=None):
+    """Returns {"stuck","raised","checks":[(what, got, want)],"pair_of_handle":[...],"layout":[(i, vid,
+    slice)]}. `pair_of_handle` (from a run of the same case without the transpiler) is used when the
+    qubit cannot be followed (the transpiler expands `mov` into gates)."""
+    import random as _random
+    rrng = _random.Random(c["rseed"])
+    SharedMemoryManager.reset_memories()
+    BaseNetQASMConnection._app_ids.clear()
+    BaseNetQASMConnection._app_names.clear()
+    DebugConnection.node_ids = {NODE_NAME: NODE_ID, REMOTE_NAME: 1}
+    ex = TokenExecutor(name=NODE_NAME)
+    ex.network_stack = RecordingStack()
+    keep = c["tp"] == "K"
+    resps = []
+    for k in range(c["number"]):
+        r = RespSpec(k, "K" if keep else "M", 1, 0, 1 if c["role"] == "recv" else 0, PHYS0 + k, rrng)
+        r.seq = 100 + k
+        r.goodness = rrng.randrange(1 << 20)
+        r.gtime = rrng.randrange(1 << 20)
+        r.uid = rrng.randrange(1 << 16)
+        resps.append(r)
+    todo = list(resps)
+
+    def responder(ex_):
+        if not todo:
+            return False
+        ex_._handle_epr_response(todo.pop(0).real())
+        return True
+
+    nv = c["hw"] != "generic"
+    transp = c["hw"] == "nv+transpiler"
+    hwc = NVHardwareConfig(c["nq"]) if nv else GenericHardwareConfig(c["nq"])
+    sock = EPRSocket(REMOTE_NAME, epr_socket_id=0, remote_epr_socket_id=0)
+    conn = InProcConnection(ex, responder, epr_sockets=[sock], max_qubits=c["nq"], hardware_config=hwc,
+                            compiler=NVSubroutineTranspiler if transp else None)
+    conn._flavour = NVFlavour() if transp else VanillaFlavour()
+    out = {"stuck": False, "raised": None, "checks": [], "pair_of_handle": None, "layout": []}
+    seq = c["sequential"] and keep
+
+    def post(conn_, q, pair):
+        q.measure()
+
+    try:
+        kw = {"number": c["number"]}
+        if seq:
+            kw.update(sequential=True, post_routine=post)
+        qubits = handles = None
+        if c["role"] == "create":
+            if keep:
+                qubits, handles = sock.create_keep_with_info(**kw)
+            else:
+                handles = sock.create_measure(number=c["number"])
+        else:
+            if keep:
+                qubits, handles = sock.recv_keep_with_info(expect_phi_plus=c["phi"], **kw)
+            else:
+                handles = sock.recv_measure(number=c["number"], expect_phi_plus=c["phi"])
+        conn.flush()
+    except Exception as e:
+        out["raised"] = "%s: %s" % (type(e).__name__, e)
+        return out
+    if conn.stuck:
+        out["stuck"] = True
+        return out
+
+    def fld(r, name):
+        v = getattr(r.real(), name)
+        return v.value if hasattr(v, "value") else v
+
+    spec = ({"qubit_id": "logical_qubit_id", "remote_node_id": "remote_node_id",
+             "generation_duration": "goodness", "raw_bell_state": "bell_state"} if keep else
+            {"raw_measurement_outcome": "measurement_outcome", "remote_node_id": "remote_node_id",
+             "generation_duration": "goodness", "raw_bell_state": "bell_state"})
+    for i, h in enumerate(handles):
+        for attr, f in spec.items():
+            out["checks"].append(("%s of pair %d" % (attr, i), getattr(h, attr).value, fld(resps[i], f)))
+    if qubits is not None:
+        # which pair does returned qubit i hold?
+        if transp:
+            poh = pair_of_handle
+        elif seq:
+            poh = [m - PHYS0 for m in ex.measured]      # i-th iteration measured the qubit of pair ...
+        else:
+            um = ex._qubit_unit_modules[conn.app_id]
+            poh = []
+            for q in qubits:
+                p = um[q.qubit_id]
+                poh.append(None if p is None else ex.content.get(p, p) - PHYS0)
+        out["pair_of_handle"] = poh
+        if poh is None or len(poh) != len(qubits) or sorted(x for x in poh if x is not None) != \
+                list(range(len(qubits))):
+            out["checks"].append(("every returned qubit holds exactly one pair", poh, list(range(len(qubits)))))
+        else:
+            for i, q in enumerate(qubits):
+                info = q.entanglement_info
+                out["layout"].append([i, q.qubit_id, info.type._index // OK_FIELDS_K])
+                for f, v in zip(info._fields, info):
+                    out["checks"].append(("entanglement_info.%s of returned qubit %d (virtual %d, holds pair %d)"
+                                          % (f, i, q.qubit_id, poh[i]), v.value, fld(resps[poh[i]], f)))
     return out
